@@ -150,7 +150,32 @@ def evalC19HeadStale (ins outs : List String) : Verdict :=
     | _, _ => .prop "c19_head_result" s!"b={b} a={a}"
   | _, _, _, _, _ => .bad "C19 headstale"
 
+/-- the real Syncer on the real Exchange: only heads that verify against the subjective head are ever adopted -/
+def evalC19Integrated (ins outs : List String) : Verdict :=
+  match kvNat? ins "store", kv? ins "answer", kvNat? ins "R", kv? outs "head", kv? outs "storehead" with
+  | some st, some answer, some R, some head, some storehead =>
+    if head.startsWith "fork" || head.startsWith "?" || storehead.startsWith "fork" then
+      .prop "c19_only_verified_heads_adopted" s!"answer={answer} => head={head} storehead={storehead}" else
+    match head.splitOn ":" with
+    | ["main", hs] =>
+      match hs.toNat? with
+      | none => .bad "integrated head"
+      | some h =>
+        if h < st then .prop "c19_monotone" s!"head={head} below the stored head {st}" else
+        match answer.splitOn ":" with
+        | ["main", a] =>
+          match a.toNat? with
+          | some ah =>
+            if st < ah && ah ≤ st + R && h != ah then .prop "c19_stale_one_request_with_trusted_head" s!"a verifiable newer head {ah} was not adopted: head={head}"
+            else if h != st && h != ah then .prop "c19_only_verified_heads_adopted" s!"head={head} is neither the subjective head nor the answer"
+            else .ok "integrated"
+          | none => .bad "integrated answer"
+        | _ => if h != st then .prop "c19_only_verified_heads_adopted" s!"answer={answer} => head={head}" else .ok "integrated"
+    | _ => .prop "c19_no_error_with_valid_subjective_head" s!"head={head}"
+  | _, _, _, _, _ => .bad "C19 integrated"
+
 def evalC19Flight (ins outs : List String) : Verdict :=
+  if kv? ins "kind" == some "integrated" then evalC19Integrated ins outs else
   if kv? ins "kind" == some "headrace" then evalC19HeadRace ins outs else
   if kv? ins "kind" == some "headstale" then evalC19HeadStale ins outs else
   match kvNat? ins "n", kvNat? outs "reqs", kv? outs "results" with
